@@ -86,15 +86,18 @@ def run(tier):
     _attach_bams(events)
     tables = [e for e in events if e['ev'] == 'table']
     bad = set(events[x['line'] - 1]['tid'] for x in r['rejects'])
-    c.add_trace_result(r, events, key_fn, what_fn, n_traces=len(tables), sample_n=0)
+    c.add_trace_result(r, events, key_fn, what_fn, n_traces=len([e for e in tables if e['tid'] not in set(n['tid'] for n in r['notes'])]),
+                       sample_n=0)
     for e in tables[:2]:
         c.samples.append(vlib._shorten({k: v for k, v in e.items() if k != 'bam'}))
     c.samples.append(vlib._shorten(events[0]))
 
     # binding self-test: corrupted copies of ACCEPTED observations must be rejected by TLC
     good = None
+    noted = set(n['tid'] for n in r['notes'])
     for k, e in enumerate(events):
-        if e['ev'] == 'table' and e['tid'] not in bad and not e['raised'] and len(e['table']) >= 2 \
+        if e['ev'] == 'table' and e['tid'] not in bad and e['tid'] not in noted and not e['raised'] and len(e['table']) >= 2 \
+                and all(x['w'] > 0 for x in e['table']) and not e['opts'].get('bulk') \
                 and not e['opts']['blacklist'] and not (e['opts']['r1only'] or e['opts']['r2only']):
             good = e
             break
